@@ -9,8 +9,13 @@
 //                                           check.buffer after init/update*/finish>", state pre-filled with 0xAA
 //   small32 <init> <hex> / small64 ...  -> HAVE_SMALL implementation (crc32_small.c / crc64_small.c)
 //   smalltab32 / smalltab64             -> the 256 table entries those files generate at run time
+//   huge <fn> <size> <seed>             -> "<one call over the whole buffer> <same buffer in ~1 GiB pieces>" for
+//                                           fn = crc32pub|crc32arch|crc32gen|crc64pub|crc64arch|crc64gen|sha256|check1|check4:
+//                                           a (4 GiB + 16 KiB) MAP_NORESERVE mapping, 8 KiB of xorshift bytes at the
+//                                           start and at the end of the first <size> bytes, zeros in between
 #include "hproto.h"
 #include "check.h"
+#include <sys/mman.h>
 
 uint32_t h_crc32_generic(const uint8_t *, size_t, uint32_t);
 uint32_t h_crc32_arch(const uint8_t *, size_t, uint32_t);
@@ -22,6 +27,94 @@ uint32_t h_small32(const uint8_t *, size_t, uint32_t);
 uint64_t h_small64(const uint8_t *, size_t, uint64_t);
 uint32_t h_small32_tab(unsigned);
 uint64_t h_small64_tab(unsigned);
+
+// Like hp_hex_aligned, but the buffer ENDS exactly at the end of the allocation, so that ASan sees any read past
+// the last byte (the alignment prologues of the generic CRC code must never run past a short buffer).
+static uint8_t *hex_aligned_exact(const char *s, size_t *len, size_t align, void **base)
+{
+	size_t n = (strcmp(s, "-") == 0) ? 0 : strlen(s) / 2;
+	size_t k = align % 64;
+	uint8_t *b = NULL;
+	// b is 64-byte aligned, p = b + k, and p + n is the end of the allocation
+	if (posix_memalign((void **)&b, 64, k + n + (k + n == 0 ? 1 : 0)) != 0)
+		abort();
+	*base = b;
+	uint8_t *p = b + k;
+	for (size_t i = 0; i < n; ++i) {
+		int hi = hp_hexval(s[2 * i]), lo = hp_hexval(s[2 * i + 1]);
+		if (hi < 0 || lo < 0) { fprintf(stderr, "bad hex\n"); exit(3); }
+		p[i] = (uint8_t)(hi * 16 + lo);
+	}
+	*len = n;
+	return p;
+}
+
+#define HUGE_MAP ((size_t)4 * 1024 * 1024 * 1024 + 16384)
+#define HUGE_EDGE 8192
+#define HUGE_PIECE ((size_t)1024 * 1024 * 1024 + 4097)
+
+static uint64_t xs_state;
+static uint8_t xs_next(void)
+{
+	xs_state ^= xs_state << 13;
+	xs_state ^= xs_state >> 7;
+	xs_state ^= xs_state << 17;
+	return (uint8_t)(xs_state >> 32);
+}
+
+static void do_huge(hp_line *l)
+{
+#if SIZE_MAX > UINT32_MAX
+	const char *fn = l->tok[1];
+	size_t size = (size_t)hp_u64(l->tok[2]);
+	if (size > HUGE_MAP || size < 2 * HUGE_EDGE) { printf("bad-op\n"); return; }
+	uint8_t *m = mmap(NULL, HUGE_MAP, PROT_READ | PROT_WRITE, MAP_PRIVATE | MAP_ANONYMOUS | MAP_NORESERVE, -1, 0);
+	if (m == MAP_FAILED) { printf("mmap-failed\n"); return; }
+	xs_state = hp_u64(l->tok[3]) * 2 + 1;
+	for (size_t i = 0; i < HUGE_EDGE; ++i) m[i] = xs_next();
+	for (size_t i = 0; i < HUGE_EDGE; ++i) m[size - HUGE_EDGE + i] = xs_next();
+	if (!strncmp(fn, "crc32", 5) || !strncmp(fn, "crc64", 5)) {
+		int w64 = fn[3] == '6';
+		const char *k = fn + 5;
+		uint64_t one, pcs = 0;
+		if (!strcmp(k, "pub")) one = w64 ? h_crc64_public(m, size, 0) : h_crc32_public(m, size, 0);
+		else if (!strcmp(k, "arch")) one = w64 ? h_crc64_arch(m, size, 0) : h_crc32_arch(m, size, 0);
+		else if (!strcmp(k, "gen")) one = w64 ? h_crc64_generic(m, size, 0) : h_crc32_generic(m, size, 0);
+		else { munmap(m, HUGE_MAP); printf("bad-op\n"); return; }
+		for (size_t pos = 0; pos < size; ) {
+			size_t n = size - pos < HUGE_PIECE ? size - pos : HUGE_PIECE;
+			pcs = w64 ? h_crc64_public(m + pos, n, pcs) : h_crc32_public(m + pos, n, (uint32_t)pcs);
+			pos += n;
+		}
+		printf("%" PRIu64 " %" PRIu64 "\n", one, pcs);
+	} else if (!strcmp(fn, "sha256") || !strcmp(fn, "check1") || !strcmp(fn, "check4") || !strcmp(fn, "check10")) {
+		lzma_check id = !strcmp(fn, "check1") ? LZMA_CHECK_CRC32 : !strcmp(fn, "check4") ? LZMA_CHECK_CRC64 : LZMA_CHECK_SHA256;
+		lzma_check_state a, b;
+		memset(&a, 0xAA, sizeof(a));
+		memset(&b, 0x55, sizeof(b));
+		lzma_check_init(&a, id);
+		lzma_check_update(&a, id, m, size);
+		lzma_check_finish(&a, id);
+		lzma_check_init(&b, id);
+		for (size_t pos = 0; pos < size; ) {
+			size_t n = size - pos < HUGE_PIECE ? size - pos : HUGE_PIECE;
+			lzma_check_update(&b, id, m + pos, n);
+			pos += n;
+		}
+		lzma_check_finish(&b, id);
+		hp_put_hex(a.buffer.u8, lzma_check_size(id));
+		putchar(' ');
+		hp_put_hex(b.buffer.u8, lzma_check_size(id));
+		putchar('\n');
+	} else {
+		printf("bad-op\n");
+	}
+	munmap(m, HUGE_MAP);
+#else
+	(void)l;
+	printf("unsupported-32-bit-size_t\n");
+#endif
+}
 
 static void do_sha(hp_line *l)
 {
@@ -71,7 +164,7 @@ int main(void)
 		const char *op = l.tok[0];
 		if ((!strcmp(op, "crc32") || !strcmp(op, "crc64")) && l.ntok == 4) {
 			size_t n; void *base;
-			uint8_t *p = hp_hex_aligned(l.tok[3], &n, (size_t)hp_u64(l.tok[1]), &base);
+			uint8_t *p = hex_aligned_exact(l.tok[3], &n, (size_t)hp_u64(l.tok[1]), &base);
 			uint64_t init = hp_u64(l.tok[2]);
 			if (op[3] == '3')
 				printf("%" PRIu32 " %" PRIu32 " %" PRIu32 "\n", h_crc32_generic(p, n, (uint32_t)init),
@@ -88,6 +181,8 @@ int main(void)
 				free(p);
 			}
 			printf("%" PRIu64 "\n", c);
+		} else if (!strcmp(op, "huge") && l.ntok == 4) {
+			do_huge(&l);
 		} else if (!strcmp(op, "sha256") && l.ntok == 2) {
 			do_sha(&l);
 		} else if (!strcmp(op, "sha256s") && l.ntok >= 1) {
